@@ -10,6 +10,7 @@
 #include <string.h>
 #include <math.h>
 #include <vector>
+#include <set>
 #include <string>
 
 typedef double realtype;
@@ -36,7 +37,8 @@ struct _ShimVector { sunindextype n; realtype *data; bool own; };
 typedef _ShimVector *N_Vector;
 
 struct _ShimMatrix {
-    int kind;  // 0 dense, 1 sparse CSR
+    int kind;  // 0 dense, 1 sparse
+    int sptype = CSR_MAT;   // declared layout of a sparse matrix: CSR_MAT or CSC_MAT
     sunindextype M, N, NNZ;
     std::vector<realtype> dense;          // column-major M*N (as SUNDIALS)
     std::vector<realtype> data;           // NNZ
@@ -51,16 +53,39 @@ typedef _ShimLinSol *SUNLinearSolver;
 typedef int (*CVRhsFn)(realtype, N_Vector, N_Vector, void *);
 typedef int (*CVLsJacFn)(realtype, N_Vector, N_Vector, SUNMatrix, void *, N_Vector, N_Vector, N_Vector);
 
+// ---------------------------------------------------------------- stand-in state
+// One entry per CVode call, consumed in order; when exhausted every call succeeds.
+struct ShimOutcome { int flag; double frac; };   // flag >= 0: success. flag < 0: fail after frac of the way
+struct ShimState {
+    std::vector<ShimOutcome> cvode_script;  size_t cv_pos = 0;
+    std::vector<int> reinit_script;         size_t ri_pos = 0;   // flags returned by CVodeReInit
+    FILE *log = NULL;
+    double t_cur = 0.0;      // integrator's internal current time
+    bool integer_fail_times = true;
+    long n_cvode = 0, n_reinit = 0, n_init = 0, n_free = 0, n_create = 0;
+    // object lifecycle (always counted; logged and acted on only when `lifecycle` is set)
+    bool lifecycle = false;
+    std::set<void *> alive;                        // every stand-in object currently alive
+    long live_ctx = 0, live_vec = 0, live_mat = 0, live_ls = 0, live_mem = 0;
+    long bad_free = 0;                             // destroy calls on something that is not alive (double free / wild pointer)
+    long use_dead = 0;                             // an API call was handed an object that is not alive
+};
+extern ShimState g_shim;
+static inline void _shim_born(void *p, long &ctr) { g_shim.alive.insert(p); ctr++; }
+static inline bool _shim_dies(void *p, long &ctr) { if (!p || !g_shim.alive.count(p)) { g_shim.bad_free++; return false; } g_shim.alive.erase(p); ctr--; return true; }
+static inline void _shim_use(void *p) { if (!p || !g_shim.alive.count(p)) g_shim.use_dead++; }
+
 // ---------------------------------------------------------------- context
-static inline int SUNContext_Create(void *, SUNContext *c) { *c = new _ShimContext(); return 0; }
-static inline int SUNContext_Free(SUNContext *c) { delete *c; *c = NULL; return 0; }
+static inline int SUNContext_Create(void *, SUNContext *c) { *c = new _ShimContext(); _shim_born(*c, g_shim.live_ctx); return 0; }
+static inline int SUNContext_Free(SUNContext *c) { if (_shim_dies(*c, g_shim.live_ctx)) delete *c; *c = NULL; return 0; }
 
 // ---------------------------------------------------------------- vectors
-static inline N_Vector N_VNewEmpty_Serial(sunindextype n, SUNContext) { return new _ShimVector{n, NULL, false}; }
-static inline N_Vector N_VNew_Serial(sunindextype n, SUNContext) { return new _ShimVector{n, (realtype *)calloc(n ? n : 1, sizeof(realtype)), true}; }
-static inline N_Vector N_VMake_Serial(sunindextype n, realtype *d, SUNContext) { return new _ShimVector{n, d, false}; }
-static inline void N_VDestroy(N_Vector v) { if (!v) return; if (v->own) free(v->data); delete v; }
-static inline void N_VFreeEmpty(N_Vector v) { delete v; }
+static inline N_Vector _shim_vec(N_Vector v) { _shim_born(v, g_shim.live_vec); return v; }
+static inline N_Vector N_VNewEmpty_Serial(sunindextype n, SUNContext) { return _shim_vec(new _ShimVector{n, NULL, false}); }
+static inline N_Vector N_VNew_Serial(sunindextype n, SUNContext) { return _shim_vec(new _ShimVector{n, (realtype *)calloc(n ? n : 1, sizeof(realtype)), true}); }
+static inline N_Vector N_VMake_Serial(sunindextype n, realtype *d, SUNContext) { return _shim_vec(new _ShimVector{n, d, false}); }
+static inline void N_VDestroy(N_Vector v) { if (!v) return; if (!_shim_dies(v, g_shim.live_vec)) return; if (v->own) free(v->data); delete v; }
+static inline void N_VFreeEmpty(N_Vector v) { if (_shim_dies(v, g_shim.live_vec)) delete v; }
 static inline realtype *N_VGetArrayPointer(N_Vector v) { return v->data; }
 static inline void N_VSetArrayPointer(realtype *d, N_Vector v) { v->data = d; }
 static inline void N_VConst(realtype c, N_Vector v) { for (sunindextype i = 0; i < v->n; i++) v->data[i] = c; }
@@ -69,13 +94,13 @@ static inline void N_VConst(realtype c, N_Vector v) { for (sunindextype i = 0; i
 
 // ---------------------------------------------------------------- matrices
 static inline SUNMatrix SUNDenseMatrix(sunindextype M, sunindextype N, SUNContext) {
-    SUNMatrix A = new _ShimMatrix(); A->kind = 0; A->M = M; A->N = N; A->NNZ = 0; A->dense.assign((size_t)M * N, 0.0); return A;
+    SUNMatrix A = new _ShimMatrix(); A->kind = 0; A->M = M; A->N = N; A->NNZ = 0; A->dense.assign((size_t)M * N, 0.0); _shim_born(A, g_shim.live_mat); return A;
 }
 static inline SUNMatrix SUNSparseMatrix(sunindextype M, sunindextype N, sunindextype NNZ, int type, SUNContext) {
     SUNMatrix A = new _ShimMatrix(); A->kind = 1; A->M = M; A->N = N; A->NNZ = NNZ;
-    A->data.assign((size_t)NNZ, 0.0); A->idxvals.assign((size_t)NNZ, 0); A->idxptrs.assign((size_t)M + 1, 0); (void)type; return A;
+    A->data.assign((size_t)NNZ, 0.0); A->idxvals.assign((size_t)NNZ, 0); A->idxptrs.assign((size_t)(type == CSR_MAT ? M : N) + 1, 0); A->sptype = type; _shim_born(A, g_shim.live_mat); return A;
 }
-static inline void SUNMatDestroy(SUNMatrix A) { delete A; }
+static inline void SUNMatDestroy(SUNMatrix A) { if (_shim_dies(A, g_shim.live_mat)) delete A; }
 static inline int SUNMatZero(SUNMatrix A) {
     for (auto &x : A->dense) x = 0.0; for (auto &x : A->data) x = 0.0;
     for (auto &x : A->idxvals) x = 0; for (auto &x : A->idxptrs) x = 0; return 0;
@@ -92,9 +117,10 @@ static inline realtype *SUNSparseMatrix_Data(SUNMatrix A) { return A->data.data(
 static inline sunindextype SUNSparseMatrix_NNZ(SUNMatrix A) { return A->NNZ; }
 
 // ---------------------------------------------------------------- linear solvers
-static inline SUNLinearSolver SUNLinSol_Dense(N_Vector y, SUNMatrix A, SUNContext) { return new _ShimLinSol{y, A}; }
-static inline SUNLinearSolver SUNLinSol_KLU(N_Vector y, SUNMatrix A, SUNContext) { return new _ShimLinSol{y, A}; }
-static inline int SUNLinSolFree(SUNLinearSolver s) { delete s; return 0; }
+static inline SUNLinearSolver _shim_ls(SUNLinearSolver s) { _shim_use(s->y); _shim_use(s->A); _shim_born(s, g_shim.live_ls); return s; }
+static inline SUNLinearSolver SUNLinSol_Dense(N_Vector y, SUNMatrix A, SUNContext) { return _shim_ls(new _ShimLinSol{y, A}); }
+static inline SUNLinearSolver SUNLinSol_KLU(N_Vector y, SUNMatrix A, SUNContext) { return _shim_ls(new _ShimLinSol{y, A}); }
+static inline int SUNLinSolFree(SUNLinearSolver s) { if (_shim_dies(s, g_shim.live_ls)) delete s; return 0; }
 static inline int SUNLinSolSetup(SUNLinearSolver, SUNMatrix) { return 0; }
 // dense Gaussian elimination with partial pivoting: solves A x = b
 static inline int SUNLinSolSolve(SUNLinearSolver, SUNMatrix A, N_Vector x, N_Vector b, realtype) {
@@ -111,27 +137,16 @@ static inline int SUNLinSolSolve(SUNLinearSolver, SUNMatrix A, N_Vector x, N_Vec
 }
 
 // ---------------------------------------------------------------- scripted CVODE
-// One entry per CVode call, consumed in order; when exhausted every call succeeds.
-struct ShimOutcome { int flag; double frac; };   // flag >= 0: success. flag < 0: fail after frac of the way
-struct ShimState {
-    std::vector<ShimOutcome> cvode_script;  size_t cv_pos = 0;
-    std::vector<int> reinit_script;         size_t ri_pos = 0;   // flags returned by CVodeReInit
-    FILE *log = NULL;
-    double t_cur = 0.0;      // integrator's internal current time
-    bool integer_fail_times = true;
-    long n_cvode = 0, n_reinit = 0, n_init = 0, n_free = 0, n_create = 0;
-};
-extern ShimState g_shim;
+struct _ShimCVodeMem { N_Vector y = NULL; void *user = NULL; SUNLinearSolver ls = NULL; SUNMatrix A = NULL; CVLsJacFn jac = NULL;
+                       double rtol = -1, atol = -1; long mxsteps = -1; };
 
-struct _ShimCVodeMem { N_Vector y; void *user; };
-
-static inline void *CVodeCreate(int, SUNContext) { g_shim.n_create++; if (g_shim.log) fprintf(g_shim.log, "{\"ev\":\"CVodeCreate\"}\n"); return new _ShimCVodeMem{NULL, NULL}; }
-static inline void CVodeFree(void **m) { g_shim.n_free++; if (g_shim.log) fprintf(g_shim.log, "{\"ev\":\"CVodeFree\"}\n"); delete (_ShimCVodeMem *)*m; *m = NULL; }
+static inline void *CVodeCreate(int, SUNContext) { g_shim.n_create++; if (g_shim.log) fprintf(g_shim.log, "{\"ev\":\"CVodeCreate\"}\n"); void *m = new _ShimCVodeMem(); _shim_born(m, g_shim.live_mem); return m; }
+static inline void CVodeFree(void **m) { g_shim.n_free++; if (g_shim.log) fprintf(g_shim.log, "{\"ev\":\"CVodeFree\"}\n"); if (_shim_dies(*m, g_shim.live_mem)) delete (_ShimCVodeMem *)*m; *m = NULL; }
 static inline int CVodeSetErrFile(void *, FILE *) { return 0; }
-static inline int CVodeSetMaxNumSteps(void *, long) { return 0; }
-static inline int CVodeSStolerances(void *, realtype, realtype) { return 0; }
-static inline int CVodeSetLinearSolver(void *, SUNLinearSolver, SUNMatrix) { return 0; }
-static inline int CVodeSetJacFn(void *, CVLsJacFn) { return 0; }
+static inline int CVodeSetMaxNumSteps(void *m, long n) { ((_ShimCVodeMem *)m)->mxsteps = n; return 0; }
+static inline int CVodeSStolerances(void *m, realtype rtol, realtype atol) { ((_ShimCVodeMem *)m)->rtol = rtol; ((_ShimCVodeMem *)m)->atol = atol; return 0; }
+static inline int CVodeSetLinearSolver(void *m, SUNLinearSolver ls, SUNMatrix A) { _shim_use(ls); _shim_use(A); ((_ShimCVodeMem *)m)->ls = ls; ((_ShimCVodeMem *)m)->A = A; return 0; }
+static inline int CVodeSetJacFn(void *m, CVLsJacFn f) { ((_ShimCVodeMem *)m)->jac = f; return 0; }
 static inline int CVodeSetUserData(void *m, void *u) { ((_ShimCVodeMem *)m)->user = u; return 0; }
 static inline int CVodeGetNumSteps(void *, long *n) { *n = 0; return 0; }
 static inline int CVodeGetNumRhsEvals(void *, long *n) { *n = 0; return 0; }
@@ -158,6 +173,33 @@ static inline int CVodeReInit(void *m, realtype t0, N_Vector y) {
 }
 static inline int CVode(void *m, realtype tout, N_Vector yout, realtype *tret, int) {
     g_shim.n_cvode++;
+    if (g_shim.lifecycle && g_shim.log) {
+        // what the integrator was configured with, and the Jacobian AS THE LINEAR SOLVER READS IT: the user's Jacobian routine is
+        // called once and the matrix is decoded according to the layout it was DECLARED with when it was created
+        _ShimCVodeMem *mm = (_ShimCVodeMem *)m;
+        _shim_use(mm->ls); _shim_use(mm->A); _shim_use(yout);
+        bool ok = mm->ls && mm->A && g_shim.alive.count(mm->ls) && g_shim.alive.count(mm->A);
+        fprintf(g_shim.log, "{\"ev\":\"Configured\",\"rtol\":%.17g,\"atol\":%.17g,\"mxsteps\":%ld,\"ls_matrix_is_attached\":%s",
+                mm->rtol, mm->atol, mm->mxsteps, (ok && mm->ls->A == mm->A) ? "true" : "false");
+        if (ok && mm->jac) {
+            SUNMatrix A = mm->A;
+            mm->jac(g_shim.t_cur, yout, NULL, A, mm->user, NULL, NULL, NULL);
+            fprintf(g_shim.log, ",\"fmt\":\"%s\",\"rows\":%ld,\"cols\":%ld,\"nnz\":%ld,\"seen\":[",
+                    A->kind == 0 ? "dense" : (A->sptype == CSR_MAT ? "CSR" : "CSC"), (long)A->M, (long)A->N, (long)A->NNZ);
+            bool first = true;
+            if (A->kind == 0) {
+                for (long i = 0; i < A->M; i++) for (long j = 0; j < A->N; j++) if (A->dense[(size_t)j * A->M + i] != 0.0) {
+                    fprintf(g_shim.log, "%s[%ld,%ld,%.17g]", first ? "" : ",", i, j, A->dense[(size_t)j * A->M + i]); first = false; }
+            } else {
+                long np = (long)A->idxptrs.size() - 1;
+                for (long a = 0; a < np; a++) for (long q = A->idxptrs[a]; q < A->idxptrs[a + 1] && q < A->NNZ; q++) {
+                    long r = A->sptype == CSR_MAT ? a : A->idxvals[q], c = A->sptype == CSR_MAT ? A->idxvals[q] : a;
+                    fprintf(g_shim.log, "%s[%ld,%ld,%.17g]", first ? "" : ",", r, c, A->data[q]); first = false; }
+            }
+            fprintf(g_shim.log, "]");
+        }
+        fprintf(g_shim.log, "}\n");
+    }
     ShimOutcome o{0, 0.0};
     bool scripted = false;
     if (g_shim.cv_pos < g_shim.cvode_script.size()) { o = g_shim.cvode_script[g_shim.cv_pos++]; scripted = true; }
